@@ -96,10 +96,16 @@ func (t *Input) CoerceIn(v interface{}) (interface{}, error) {
 	case nil:
 		// nil is okay at this point
 	case map[string]interface{}:
+		// With more than one unknown field report the same one every time,
+		// the order of a map is not stable.
+		unknown, found := "", false
 		for k := range tv {
-			if t.fields.get(k) == nil {
-				return nil, fmt.Errorf("%s is not a field in %s", k, t.Name())
+			if t.fields.get(k) == nil && (!found || k < unknown) {
+				unknown, found = k, true
 			}
+		}
+		if found {
+			return nil, fmt.Errorf("%s is not a field in %s", unknown, t.Name())
 		}
 		var rv reflect.Value
 		rt := t.meta
@@ -120,7 +126,8 @@ func (t *Input) CoerceIn(v interface{}) (interface{}, error) {
 			tv = cp
 			v = cp
 		}
-		for k, f := range t.fields.dict {
+		for _, f := range t.fields.list {
+			k := f.N
 			ov := tv[k]
 			if ov == nil {
 				if f.Default != nil { // if not set then add the default value if not nil
